@@ -435,6 +435,13 @@ class Parser:
             return True
 
         if ttype == "semicolon":
+            condition = (
+                self.__curcommand.get_type() == "control"
+                and self.__curcommand.accept_children
+            )
+            if condition:
+                # a block is required here
+                return False
             self.__cstate = None
             if not self.__check_command_completion(testsemicolon=False):
                 return False
